@@ -1153,7 +1153,17 @@ class Gen:
         return {"a": [{"t": "v", "k": "tuple", "v": names}]}, scope
 
     def _row(self, scope):
-        return [self.g_pyval() if self.p(0.75) else self.g_expr(1, scope) for _ in range(self.rng.randint(1, 3))]
+        # never a list/tuple/query as a positional value: insert(x, ...) with a sequence first treats EVERY argument
+        # as a row and iterates it (iterating a Selectable never ends: __getitem__ answers every index)
+        row = []
+        for _ in range(self.rng.randint(1, 3)):
+            v = self.g_pyval() if self.p(0.75) else self.g_expr(0, scope)
+            if isinstance(v, list) or (isinstance(v, dict) and v.get("t") == "v" and v.get("k") in ("list", "tuple")):
+                v = self.g_pyval(simple=True)
+                if isinstance(v, list):
+                    v = 1
+            row.append(v)
+        return row
 
     def r_insert(self, v, kd, ri, scope):
         if kd == "table":
